@@ -24,7 +24,9 @@ EXPLANATION = (
     'PTB writer escapes ( and ) inside words with bracket-free replacements and the reader applies the inverse pairs; '
     'R20.6 writer templates and reader cursor programs agree field by field for both formats (root prefix and its '
     'length, marker characters, which field holds category / word / rule symbol, symbol printed from op_symbol and '
-    'stored in both label slots, child order).  The round trips themselves (all categories, all tokens) are not decided.')
+    'stored in both label slots, child order).  The round trips themselves (all categories, all tokens) are not decided.'
+    ' utils.normalize, through which the Japanese writer sends the surface form, must leave every word other than the bracket names unchanged; the find()-slice rule carries an embedded example.'
+)
 TRUSTED = ['CPython ast', 'sa/pysym.py path walker', 'independent category grammar sa/datafiles.py', 'rule table DESIGN.md C20']
 
 RD = 'depccg/tools/reader.py'
